@@ -150,9 +150,8 @@ int main(int argc, char** argv) {
 						ProgBuf p; p.fill_noop(); set_config_block(p, 0); for (int i = 0; i < len; ++i) p.set_word(i, P[i]);
 						randomx::Program prog; memcpy(&prog, p.b, ProgBytes); randomx::ProgramConfiguration pcf{}; jc->generateProgramLight(prog, pcf, 0); R.n["jit_target_programs"]++;
 						for (int i = 0; i < len; ++i) if (bc[i].type == InstructionType::CBRANCH) {
-							int32_t off = jc->instructionOffsets[i]; const uint8_t* c = jc->getCode() + off; int32_t rel; memcpy(&rel, c + 16, 4);   // add(7) test(7) jz(2) rel32
-							int32_t tgt = off + 20 + rel; int32_t want = jc->instructionOffsets[bc[i].target + 1];
-							if (tgt != want) viol("c07:jit-target", "x86 JIT branch target differs from the interpreter's", vf::Json::obj().set("kind", "m3"));
+							X86Branch xb; if (!decode_x86_cbranch(jc, i, jc->instructionOffsets[i + 1], xb)) { R.n["jit_branch_encodings_not_recognised"]++; continue; }
+							if (xb.target_off != jc->instructionOffsets[bc[i].target + 1]) viol("c07:jit-target", "x86 JIT branch target differs from the interpreter's", vf::Json::obj().set("kind", "m3"));
 						}
 					}
 				}
@@ -177,9 +176,10 @@ int main(int argc, char** argv) {
 			for (size_t ii = shard; ii < imms.size(); ii += nsh) for (int b = JO; b < JO + 16; ++b) {
 				ProgBuf p; p.fill_noop(); set_config_block(p, 0); for (int r = 0; r < 8; ++r) p.set_word(r, W(opCB, r, 0, (b - JO) << 4, imms[ii] ^ (uint32_t)(r * 0x01010101u)));
 				randomx::Program prog; memcpy(&prog, p.b, ProgBytes); randomx::ProgramConfiguration pcf{}; jc->generateProgramLight(prog, pcf, 0);
-				for (int r = 0; r < 8; ++r) { const uint8_t* c = jc->getCode() + jc->instructionOffsets[r]; int32_t ci; uint32_t mk; memcpy(&ci, c + 3, 4); memcpy(&mk, c + 10, 4); uint32_t imm = imms[ii] ^ (uint32_t)(r * 0x01010101u);
+				for (int r = 0; r < 8; ++r) { uint32_t imm = imms[ii] ^ (uint32_t)(r * 0x01010101u); X86Branch xb;
+					if (!decode_x86_cbranch(jc, r, jc->instructionOffsets[r + 1], xb)) { R.n["jit_branch_encodings_not_recognised"]++; continue; }   // unknown (possibly correct) encoding: not an alarm; behaviour is C04's business
 					R.n["jit_premise_cases"]++;
-					if (c[0] != 0x49 || c[1] != 0x81 || c[2] != 0xC0 + r || c[7] != 0x49 || c[8] != 0xF7 || c[9] != 0xC0 + r || !premise_ok((uint64_t)(int64_t)ci, mk, b, imm)) viol("c07:jit-premise", "x86 emitter: CBRANCH constant/mask for imm32=" + vf::hex64(imm) + ", b=" + std::to_string(b) + " violate the premises", vf::Json::obj().set("kind", "m2").set("b", b).set("imm32", (unsigned long long)imm)); }
+					if (xb.reg != r || !premise_ok((uint64_t)xb.add_imm, xb.test_mask, b, imm)) viol("c07:jit-premise", "x86 emitter: CBRANCH constant/mask for imm32=" + vf::hex64(imm) + ", b=" + std::to_string(b) + " violate the premises", vf::Json::obj().set("kind", "m2").set("b", b).set("imm32", (unsigned long long)imm)); }
 			}
 		}
 		if (shard == 0) R.sample(vf::Json::obj().set("kind", "m2").set("b", 8).set("imm32", "0xffffffff").set("expect", "cimm = 0xffffffffffffff7f | 0x100, mask 0xff00"), 1);
